@@ -58,6 +58,10 @@ fn main() {
                         g.scripted_dust();
                         g.snapshot(&mut wobs);
                     }
+                    if args[1] == "world" && h % 8 == 6 {
+                        g.scripted_backlog();
+                        g.snapshot(&mut wobs);
+                    }
                     if args[1] == "world" && h % 8 == 3 {
                         g.scripted_forced_duplicates();
                         g.snapshot(&mut wobs);
